@@ -82,6 +82,41 @@ def run(tier):
     for j, (ci, act) in enumerate(jobkey, 1):
         per.setdefault(ci, {})[act] = [spec_outcome(s) for s in spec[j]]
     impl = run_impl(cases, fn=run_sem_case, chunk=2)
+    # PegMachine (model flavour / generated-parser flavour) with the tagging and the failing action, under memo schedules with up to 2
+    # forced misses (an evicted entry means the action runs again): Refines for the model flavour, and the machine's outcome is the
+    # expectation for BOTH back-ends on ALL shapes - also those the PegSem comparison below has to leave to C02
+    from ..pegcheck import machine_vs_impl, run_machine, with_marks
+    marked = with_marks([it['g'] for it in items])
+    mjobs, mkey = Jobs(), []
+    for ii, (it, g) in enumerate(zip(items, marked)):
+        for act in ('tag', 'failb'):
+            for backend in ('model', 'gen'):
+                mcfg = make_cfg(chars_of(g, it['texts']), nameguard=False, act=act, actrule='*')
+                mcfg.update({'backend': backend, 'maxmiss': 2 if backend == 'model' else 0, 'prune': True, 'memoize': True})
+                mjobs.add(g, mcfg, it['texts'])
+                mkey.append((ii, act, backend))
+    rm, mach = run_machine(mjobs)
+    ck.add_tlc(rm, 'PegMachineMC (actions x memo schedules x both flavours)')
+    if rm.violated:
+        ck.violation({'kind': 'schedule', 'inputs': {'spec': 'PegMachineMC'}, 'expected': 'Refines, FramesBalanced, StepBound, CutContained',
+                      'observed': rm.violated, 'trace': rm.trace[:60]}, key='machine' + str(rm.violated))
+    nmach = 0
+    for mj, (ii, act, backend) in enumerate(mkey, 1):
+        ci = 2 * ii + (0 if backend == 'model' else 1)
+        im, c = impl[ci], cases[ci]
+        if im['compile']['k'] != 'ok':
+            continue
+        for t, res in enumerate(im['res'], 1):
+            if act not in res or t not in mach.get(mj, {}):
+                continue
+            nmach += 1
+            whym = machine_vs_impl(mach[mj][t], res[act])
+            if whym:
+                ck.violation({'kind': 'parse', 'inputs': {'grammar': c['ebnf'], 'text': c['texts'][t - 1], 'backend': c['backend'], 'semantics': act},
+                              'expected': mach[mj][t]['r'], 'observed': res[act], 'why': 'departs from PegMachine: ' + whym,
+                              'spec': f'PegMachine (flavour {backend}, Cfg.act = {act})'}, key='mach' + c['ebnf'] + backend + act)
+    ck.count(evaluations=nmach, traces=nmach)
+    ck.notes['machine_cases'] = nmach
     seen = set()
     for ci, (c, im) in enumerate(zip(cases, impl)):
         base = ci - (ci % 2)
